@@ -423,6 +423,10 @@ def run(ctx):
     # >>> a_dom (wave 4): iterators at every iteration point, value readers of every yielded value
     C17_iter.run_iter(ctx, main_parsed, extra)
     # <<<
+    # >>> s_dom (wave 6): size / boundary ladders (one dimension at a time, expected counts by construction)
+    from props import C17_ladder
+    C17_ladder.run_ladder(ctx)
+    # <<<
 
 
 def search(ctx):
@@ -445,3 +449,11 @@ CLAIM = {
 
 # a_dom (wave 4): the additional claim is part of the manifest text
 CLAIM["text"] = CLAIM["text"] + ". Wave 4: " + CLAIM.pop("wave4")
+
+# >>> s_dom (wave 6)
+RULE = RULE + ("; wave 6 (props/C17_ladder.py): deterministic size ladders 0 1 2 3 7 8 9 15 16 17 31 32 33 63 64 65 127 128 129 255 256 257 1023 1024 1025 "
+               "4095 4096 4097 65533..65536, one dimension at a time: fields / duplicates / groups (to 4097), key, header, parameter and scalar "
+               "length (to 65536), key length x alignment x first differing byte, array (to 65536) and remainder length, triples x window phase, "
+               "consecutive operators, nesting depth per container kind (to 1025), escaped / non-ASCII bytes per scalar (to 65536); streams ladder "
+               "(with the model), ladder_big (oracles only: tape-string references + counts by construction), ladder_debug (every case, debug = release)")
+# <<<
